@@ -43,8 +43,8 @@ theorem arity_mismatch_error (P : Platform) (f : Nat) (c : Expr) (args : List Ex
     (hk : arity n ≠ -1) (hm : (args.length : Int) ≠ arity n) :
     ∃ m, evalE P (f + 1) (.call c line args) env repl σ = .ok (.nil, .none) (σ1.rte m line) ∧
       (σ1.rte m line).nativeCalls = σ1.nativeCalls := by
-  rw [evalE]; simp only [h0, hc]
-  simp [hk, hm, nilOk, Store.rte]
+  rw [evalE]; simp only [guardErr, ER.seq, Res.bind, h0, hc]
+  simp [arityOf, hk, hm, nilOk, Store.rte]
 
 /-- nothing to compare: `সর্বনিম্ন()` / `সর্বোচ্চ()` / an empty array are errors -/
 theorem minmax_empty_error (P : Platform) (σ : Store) (r : Nat) (h : σ.arrs[r]? = some []) :
